@@ -7,7 +7,7 @@ to EVENT_LOG: the log is the emulator's observed gate stream.
 from jaqalpaq.core import GateDefinition, Parameter, ParamType
 from jaqalpaq.core.gatedef import BusyGateDefinition, add_idle_gates
 
-from .gateset_sig import RAW, GATES, VARIANTS, BUSY, unitary, nq, plain_numbers  # noqa: F401
+from .gateset_sig import RAW, GATES, VARIANTS, BUSY, unitary, nq, plain_numbers, call  # noqa: F401
 
 KIND = {"q": ParamType.QUBIT, "f": ParamType.FLOAT, "i": ParamType.INT}
 
@@ -17,7 +17,7 @@ EVENT_LOG = []
 def _logged(name, fn):
     def ideal_unitary(*args):
         EVENT_LOG.append((name, tuple(args)))
-        return fn(*plain_numbers(args))
+        return call(fn, args)
 
     ideal_unitary.__name__ = "U_" + name
     return ideal_unitary
@@ -53,7 +53,7 @@ def make(idle=True, logged=True, variant="A"):
     }
     base = _used_base() if derived else None
     for name, (params, fn) in VARIANTS[variant].items():
-        u = None if fn is None else (_logged(name, fn) if logged else (lambda *a, _f=fn: _f(*plain_numbers(a))))
+        u = None if fn is None else (_logged(name, fn) if logged else (lambda *a, _f=fn: call(_f, a)))
         if name in BUSY:
             g[name] = BusyGateDefinition(name, [Parameter(n, KIND[k]) for n, k in params], ideal_unitary=u)
         elif derived and u is not None:
